@@ -17,17 +17,21 @@ Theorem C04_enters_slice : forall rec ivk sn field cus isnil ek et vs b,
   is_zero (VSlice isnil ek et vs) = Ok false ->
   exist rec ivk sn field cus (VSlice isnil ek et vs) b = on_elems rec (sn ++ DOT :: field) O vs b.
 Proof. exact exist_enters_slice. Qed.
+Print Assumptions C04_enters_slice.
 Theorem C04_enters_map : forall rec ivk sn field cus isnil kk t es b,
   is_zero (VMap isnil kk t es) = Ok false ->
   exist rec ivk sn field cus (VMap isnil kk t es) b = on_entries rec (sn ++ DOT :: field) es b.
 Proof. exact exist_enters_map. Qed.
+Print Assumptions C04_enters_map.
 Print Assumptions C04_enters_struct.
 
 (* nil or zero sub-objects under exist are skipped silently; time.Time is never entered *)
 Theorem C04_exist_skips_zero : forall rec ivk sn field cus tv b, is_zero tv = Ok true -> exist rec ivk sn field cus tv b = Ok b.
 Proof. exact exist_skips_zero. Qed.
+Print Assumptions C04_exist_skips_zero.
 Theorem C04_time_never_entered : forall rec ivk sn field cus z b, exist rec ivk sn field cus (VTime z) b = Ok b.
 Proof. exact exist_skips_time. Qed.
+Print Assumptions C04_time_never_entered.
 
 (* sub-objects on fields without required / exist are never validated: the result does not depend
    on the recursive call at all; unexported and time.Time fields are skipped whatever they carry *)
@@ -39,10 +43,12 @@ Theorem C04_hidden_field_skipped : forall c rec sn cus fi fv fs b,
   f_time fi || negb (is_exported (f_name fi)) = true ->
   on_fields c rec sn cus ((fi, fv) :: fs) b = on_fields c rec sn cus fs b.
 Proof. exact hidden_field_skipped. Qed.
+Print Assumptions C04_hidden_field_skipped.
 Theorem C04_untagged_field_skipped : forall c rec sn cus fi fv fs b,
   rm_get cus (f_name fi) = [] -> tag_get (f_tags fi) (c_tag c) = [] ->
   on_fields c rec sn cus ((fi, fv) :: fs) b = on_fields c rec sn cus fs b.
 Proof. exact untagged_field_skipped. Qed.
+Print Assumptions C04_untagged_field_skipped.
 Print Assumptions C04_unmarked_never_entered.
 
 (* every clause (and group member) found while validating an object, at any depth, carries a path
@@ -78,12 +84,15 @@ Proof.
   - intros H. apply negb_true_iff, orb_false_iff in H. destruct H as [_ H]. repeat split; auto.
   - destruct (str_eqb (pk_key vn) Exist); [|discriminate]. intros H. apply negb_true_iff in H. repeat split; auto.
 Qed.
+Print Assumptions C04_no_descent_without_mark.
 Theorem C04_hidden_field_has_no_instances : forall c cus fi,
   f_time fi || negb (is_exported (f_name fi)) = true -> field_rules c cus fi = [].
 Proof. intros c cus fi H. unfold field_rules. now rewrite H. Qed.
+Print Assumptions C04_hidden_field_has_no_instances.
 Theorem C04_nil_and_non_struct_have_no_instances : forall c a sn v,
   match remove_ptr v with VStruct _ _ => False | _ => True end -> resolve c a sn v = None.
 Proof.
   intros c a sn v H. destruct a as [|i [|j rest]]; try reflexivity. cbn [resolve].
   destruct (remove_ptr v); try reflexivity. destruct H.
 Qed.
+Print Assumptions C04_nil_and_non_struct_have_no_instances.
